@@ -142,16 +142,48 @@ theorem settingsIws_append_ecp (l : List (Nat × Nat)) (b : Bool) :
 
 theorem capOK_default : CapOK ({} : Writer) := by unfold CapOK; decide
 
+/-- the stream layer of a fresh client connection satisfies `KInv` (nothing in `pending_capacity`) -/
+theorem kinv_init (g : Conn.Cfg) : KInv (Conn.init g).streams := by
+  have h0 : ∀ s : Streams, ConnFlowP.Init s → s.prio.pendingCapacity = [] → KInv s :=
+    fun s hi hp => ⟨hi.safe, hi.reqOk, Or.inl hp⟩
+  unfold Conn.init
+  dsimp only
+  split
+  · unfold Conn.setTargetWindowSize
+    dsimp only
+    refine KInv.setTargetConnectionWindow (KInv.cloneHandle ?_) _
+    rw [ConnFlowP.bufferSettings_streams]
+    exact h0 _ ⟨rfl, rfl⟩ rfl
+  · dsimp only
+    refine KInv.cloneHandle ?_
+    rw [ConnFlowP.bufferSettings_streams]
+    exact h0 _ ⟨rfl, rfl⟩ rfl
+
+theorem kinv_initServer (g : Conn.Cfg) (ecp : Bool) (pf : Bytes) : KInv (Conn.initServer g ecp pf).streams := by
+  have h0 : ∀ s : Streams, ConnFlowP.Init s → s.prio.pendingCapacity = [] → KInv s :=
+    fun s hi hp => ⟨hi.safe, hi.reqOk, Or.inl hp⟩
+  unfold Conn.initServer
+  dsimp only
+  split
+  · unfold Conn.setTargetWindowSize
+    dsimp only
+    refine KInv.setTargetConnectionWindow ?_ _
+    rw [ConnFlowP.bufferSettings_streams]
+    exact h0 _ ⟨rfl, rfl⟩ rfl
+  · dsimp only
+    rw [ConnFlowP.bufferSettings_streams]
+    exact h0 _ ⟨rfl, rfl⟩ rfl
+
 theorem sreach_init (g : Conn.Cfg) (hodd : g.firstId % 2 = 1) (hcws : ∀ sz, g.cws = some sz → sz ≤ 2147483647) :
     SReach (Conn.init g).streams := by
-  refine ⟨ConnFlowP.init_reach g, .init (.client g hodd), ?_⟩
+  refine ⟨ConnFlowP.init_reach g, .init (.client g hodd), ?_, kinv_init g⟩
   cases hc : g.cws with
   | none => exact ⟨_, .init (ConnRecvP.init_client g hc)⟩
   | some sz => exact ⟨_, ConnRecvP.init_client_cws g sz hc (hcws sz hc)⟩
 
 theorem sreach_initServer (g : Conn.Cfg) (ecp : Bool) (pf : Bytes) (hcws : ∀ sz, g.cws = some sz → sz ≤ 2147483647) :
     SReach (Conn.initServer g ecp pf).streams := by
-  refine ⟨(ConnFlowP.initServer_reachH g ecp pf).reach, .init (.server g ecp pf), ?_⟩
+  refine ⟨(ConnFlowP.initServer_reachH g ecp pf).reach, .init (.server g ecp pf), ?_, kinv_initServer g ecp pf⟩
   cases hc : g.cws with
   | none => exact ⟨_, .init (ConnRecvP.init_server g ecp pf hc)⟩
   | some sz => exact ⟨_, ConnRecvP.init_server_cws g ecp pf sz hc (hcws sz hc)⟩
